@@ -105,8 +105,10 @@ def add_viol(res, sigs, sig, case, expected, got):
 
 
 def state_hash(g):
+    import re as _re
     items = []
-    for k, v in sorted(vars(g).items()):
+    norm = lambda k: _re.sub(r'(vfm|c18[a-z]?)_\d+_\d+(_child|_c)?', 'U', k)      # per-history unique grammar names
+    for k, v in sorted((norm(k), v) for k, v in vars(g).items()):
         if k == 'HOOKS':
             items.append((k, len(v)))
         elif isinstance(v, str):
@@ -119,7 +121,7 @@ def state_hash(g):
             items.append((k, type(v).__name__))
     ctx = getattr(g, '_ctx', None)
     if ctx is not None:
-        items.append(('_ctx', tuple(sorted(vars(ctx)))))
+        items.append(('_ctx', tuple(sorted(norm(k) for k in vars(ctx)))))
     return hash(tuple(items))
 
 
